@@ -1,5 +1,7 @@
 (* Proofs about the models of Algo/TextIO.v (textual half of C06). *)
 From BT Require Import Base.Prelude Base.Str Base.Rose Algo.TextIO Spec.PC06Text.
+From Coq Require Import DecimalN DecimalPos.
+From Coq Require DecimalNat.
 
 Local Open Scope N_scope.
 
@@ -1110,4 +1112,1297 @@ Proof.
   - rewrite map_map. apply f_equal. apply map_ext. intros [[p f] n]. cbn [line_of].
     rewrite <- !app_assoc. reflexivity.
   - apply f_equal. apply f_equal. exact Y.
+Qed.
+
+(* ------------------------------------------------------------------------------------------ *)
+(* Newick round trip and export clause in general: lengths, attributes, any prefix, root or     *)
+(* inner start node, intermediate node names written or suppressed                              *)
+
+
+(* ---- decimal digits ---- *)
+Lemma uint_digits_digit d : forallb is_digit (uint_digits d) = true.
+Proof. induction d; cbn [uint_digits forallb]; try reflexivity; rewrite IHd; reflexivity. Qed.
+
+Lemma uint_digits_plain d : has_special (uint_digits d) = false.
+Proof. unfold has_special. induction d; cbn [uint_digits existsb]; try reflexivity; rewrite IHd; reflexivity. Qed.
+
+Definition dstep (a c : N) : N := a * 10 + (c - 48).
+
+Lemma fold_acc d : forall acc : positive,
+  fold_left dstep (uint_digits d) (Npos acc) = Npos (Pos.of_uint_acc d acc).
+Proof.
+  induction d; intros acc; cbn [uint_digits fold_left Pos.of_uint_acc]; try reflexivity;
+    rewrite <- IHd; f_equal; unfold dstep; lia.
+Qed.
+
+Lemma fold_of_uint d : fold_left dstep (uint_digits d) 0 = Pos.of_uint d.
+Proof.
+  induction d; cbn [uint_digits fold_left Pos.of_uint]; try reflexivity.
+  - exact IHd.
+  - change (dstep 0 49) with (Npos 1). apply fold_acc.
+  - change (dstep 0 50) with (Npos 2). apply fold_acc.
+  - change (dstep 0 51) with (Npos 3). apply fold_acc.
+  - change (dstep 0 52) with (Npos 4). apply fold_acc.
+  - change (dstep 0 53) with (Npos 5). apply fold_acc.
+  - change (dstep 0 54) with (Npos 6). apply fold_acc.
+  - change (dstep 0 55) with (Npos 7). apply fold_acc.
+  - change (dstep 0 56) with (Npos 8). apply fold_acc.
+  - change (dstep 0 57) with (Npos 9). apply fold_acc.
+Qed.
+
+Lemma N_of_digits_str n : N_of_digits (str_of_N n) = n.
+Proof.
+  unfold N_of_digits, str_of_N. change (fun a c : N => a * 10 + (c - 48)) with dstep.
+  rewrite fold_of_uint. apply (DecimalN.Unsigned.of_to n).
+Qed.
+
+Lemma length_val_pos p : length_val (str_of_N (Npos p)) = Ret (VInt (Zpos p)).
+Proof.
+  unfold length_val. unfold str_of_N at 1. rewrite uint_digits_digit. rewrite N_of_digits_str. reflexivity.
+Qed.
+
+Lemma str_of_N_nonempty p : str_of_N (Npos p) <> [].
+Proof.
+  intros E. pose proof (N_of_digits_str (Npos p)) as H. rewrite E in H. discriminate.
+Qed.
+
+
+Lemma is_nil_nilb {A} (l : list A) : is_nil l = nilb l.
+Proof. destruct l; reflexivity. Qed.
+
+Lemma str_eqb_sym a b : str_eqb a b = str_eqb b a.
+Proof.
+  destruct (str_eqb a b) eqn:E.
+  - apply str_eqb_eq in E. subst. symmetry. apply str_eqb_refl.
+  - symmetry. apply str_eqb_neq. apply str_eqb_neq in E. congruence.
+Qed.
+
+Section Machine2.
+  Variables la pf : str.
+
+  Definition not_val (st : nstate) : Prop := match st with PVal => False | _ => True end.
+
+  Lemma run_chars_cum n : forall rest ab cu be d ctr st has cum val,
+    not_val st -> has_special n = false ->
+    nw_run la pf (n ++ rest) (mkP ab cu be d ctr st has cum val 0)
+    = nw_run la pf rest (mkP ab cu be d ctr st has (cum ++ n) val 0).
+  Proof.
+    induction n as [|c n IH]; intros rest ab cu be d ctr st has cum val Hst H.
+    - rewrite app_nil_r. reflexivity.
+    - unfold has_special in H. cbn [existsb] in H. apply orb_false_iff in H as [Hc Hn].
+      destruct (not_special_chars c Hc) as (H1 & H2 & H3 & H4 & H5 & H6 & H7 & H8).
+      cbn [app nw_run p_skip]. unfold nw_step. cbv beta iota.
+      rewrite H1, H2, H3, H4, H5, H6, H7, H8. cbn [orb].
+      destruct st; [| |contradiction].
+      + rewrite (IH rest ab cu be d ctr PStr has (cum ++ [c]) val I Hn). rewrite <- app_assoc. reflexivity.
+      + rewrite (IH rest ab cu be d ctr PName has (cum ++ [c]) val I Hn). rewrite <- app_assoc. reflexivity.
+  Qed.
+
+  Lemma run_chars_val n : forall rest ab cu be d ctr has cum val,
+    has_special n = false ->
+    nw_run la pf (n ++ rest) (mkP ab cu be d ctr PVal has cum val 0)
+    = nw_run la pf rest (mkP ab cu be d ctr PVal has cum (val ++ n) 0).
+  Proof.
+    induction n as [|c n IH]; intros rest ab cu be d ctr has cum val H.
+    - rewrite app_nil_r. reflexivity.
+    - unfold has_special in H. cbn [existsb] in H. apply orb_false_iff in H as [Hc Hn].
+      destruct (not_special_chars c Hc) as (H1 & H2 & H3 & H4 & H5 & H6 & H7 & H8).
+      cbn [app nw_run p_skip]. unfold nw_step. cbv beta iota.
+      rewrite H1, H2, H3, H4, H5, H6, H7, H8. cbn [orb].
+      rewrite (IH rest ab cu be d ctr has cum (val ++ [c]) Hn). rewrite <- app_assoc. reflexivity.
+  Qed.
+
+  Lemma run_token_cum x rest ab cu be d ctr st has val :
+    not_val st -> no_quote x = true ->
+    nw_run la pf (serialize x ++ rest) (mkP ab cu be d ctr st has [] val 0)
+    = nw_run la pf rest (mkP ab cu be d ctr st has x val 0).
+  Proof.
+    intros Hst Hq. unfold serialize. destruct (has_special x) eqn:Hs.
+    - rewrite (requote_id x Hq).
+      replace ((39 :: x ++ [39]) ++ rest) with (39 :: (x ++ [39]) ++ rest) by reflexivity.
+      cbn [nw_run p_skip]. unfold nw_step. cbv beta iota. cbn [N.eqb Pos.eqb orb].
+      rewrite <- app_assoc. cbn [app]. rewrite (find_quote_app x rest Hq).
+      replace (x ++ 39 :: rest) with ((x ++ [39]) ++ rest) by (rewrite <- app_assoc; reflexivity).
+      replace (S (length x)) with (length (x ++ [39])) by (rewrite app_length; cbn; lia).
+      destruct st; [| |contradiction]; cbn [is_nil negb]; rewrite run_skip; reflexivity.
+    - rewrite run_chars_cum by assumption. reflexivity.
+  Qed.
+
+  Lemma run_token_val x rest ab cu be d ctr has cum :
+    no_quote x = true ->
+    nw_run la pf (serialize x ++ rest) (mkP ab cu be d ctr PVal has cum [] 0)
+    = nw_run la pf rest (mkP ab cu be d ctr PVal has cum x 0).
+  Proof.
+    intros Hq. unfold serialize. destruct (has_special x) eqn:Hs.
+    - rewrite (requote_id x Hq).
+      replace ((39 :: x ++ [39]) ++ rest) with (39 :: (x ++ [39]) ++ rest) by reflexivity.
+      cbn [nw_run p_skip]. unfold nw_step. cbv beta iota. cbn [N.eqb Pos.eqb orb].
+      rewrite <- app_assoc. cbn [app]. rewrite (find_quote_app x rest Hq).
+      replace (x ++ 39 :: rest) with ((x ++ [39]) ++ rest) by (rewrite <- app_assoc; reflexivity).
+      replace (S (length x)) with (length (x ++ [39])) by (rewrite app_length; cbn; lia).
+      cbn [is_nil negb]. rewrite run_skip. reflexivity.
+    - rewrite run_chars_val by assumption. reflexivity.
+  Qed.
+
+  (* attribute list inside the brackets *)
+  Definition item (kv : str * str) : str := serialize (fst kv) ++ [61] ++ serialize (snd kv).
+  Definition has_key (k : str) (a : attrs) : bool := existsb (fun kv => str_eqb (fst kv) k) a.
+
+  Lemma set_attr_fresh k v a : has_key k a = false -> set_attr k v a = a ++ [(k, v)].
+  Proof. unfold set_attr, has_key. intros H. rewrite H. reflexivity. Qed.
+
+  Lemma has_key_app k a b : has_key k (a ++ b) = has_key k a || has_key k b.
+  Proof. unfold has_key. apply existsb_app. Qed.
+
+  Definition kv_ok (kv : str * str) : Prop := key_ok (fst kv) = true /\ no_quote (snd kv) = true.
+
+  Lemma key_ok_facts k : key_ok k = true -> k <> [] /\ no_quote k = true /\ reserved_key k = false.
+  Proof.
+    unfold key_ok. intros H. repeat (apply andb_true_iff in H as [H ?]).
+    split; [destruct k; discriminate|]. split; [assumption|].
+    unfold reserved_key. destruct k as [|c k]; [discriminate|].
+    apply negb_true_iff in H1. apply negb_true_iff in H0. cbn [nilb] in *.
+    rewrite H1. cbn [orb]. unfold key_name. exact H0.
+  Qed.
+
+  (* distinctness of the keys still to come w.r.t. the attributes already set *)
+  Fixpoint fresh_keys (kvs : list (str * str)) (a : attrs) : Prop :=
+    match kvs with
+    | [] => True
+    | (k, s) :: r => has_key k a = false /\ fresh_keys r (a ++ [(k, VStr s)])
+    end.
+
+  Definition kv_attrs (kvs : list (str * str)) : attrs := map (fun kv => (fst kv, VStr (snd kv))) kvs.
+
+  Lemma items_run kvs : forall rest cu be d ctr g n a0 ab,
+    kvs <> [] -> Forall kv_ok kvs -> fresh_keys kvs a0 ->
+    nw_run la pf (join [58] (map item kvs) ++ 93 :: rest)
+           (mkP [] (cu ++ [T g n a0 ab]) be d ctr PName true [] [] 0)
+    = nw_run la pf rest (mkP [] (cu ++ [T g n (a0 ++ kv_attrs kvs) ab]) be d ctr PStr true [] [] 0).
+  Proof.
+    induction kvs as [|[k s] kvs IH]; intros rest cu be d ctr g n a0 ab Hne Hok Hfr; [contradiction|].
+    inversion Hok as [|? ? [Hk Hs] Hoks]; subst. cbn [fst snd] in Hk, Hs.
+    destruct (key_ok_facts k Hk) as (Hkne & Hkq & Hkr).
+    cbn [fresh_keys] in Hfr. destruct Hfr as [Hfk Hfr].
+    assert (Hset : set_last_attr k (VStr s) (cu ++ [T g n a0 ab]) = Ret (cu ++ [T g n (a0 ++ [(k, VStr s)]) ab])).
+    { unfold set_last_attr. rewrite Hkr. rewrite on_last_app. cbn [tset_attr].
+      rewrite (set_attr_fresh k (VStr s) a0 Hfk). reflexivity. }
+    destruct kvs as [|kv2 kvs].
+    - cbn [map join]. unfold item. cbn [fst snd]. rewrite <- !app_assoc.
+      rewrite (run_token_cum k _ [] _ be d ctr PName true [] I Hkq).
+      cbn [app nw_run p_skip]. unfold nw_step at 1. cbv beta iota. cbn [N.eqb Pos.eqb orb negb].
+      destruct k as [|c0 k0]; [contradiction|]. cbn [is_nil negb].
+      rewrite (run_token_val s _ [] _ be d ctr true (c0 :: k0) Hs).
+      cbn [nw_run p_skip]. unfold nw_step at 1. cbv beta iota. cbn [N.eqb Pos.eqb orb negb].
+      rewrite Hset. cbn [kv_attrs map fst snd]. reflexivity.
+    - change (map item ((k, s) :: kv2 :: kvs)) with (item (k, s) :: map item (kv2 :: kvs)).
+      change (join [58] (item (k, s) :: map item (kv2 :: kvs)))
+        with (item (k, s) ++ [58] ++ join [58] (map item (kv2 :: kvs))).
+      unfold item at 1. cbn [fst snd]. rewrite <- !app_assoc.
+      rewrite (run_token_cum k _ [] _ be d ctr PName true [] I Hkq).
+      cbn [app nw_run p_skip]. unfold nw_step at 1. cbv beta iota. cbn [N.eqb Pos.eqb orb negb].
+      destruct k as [|c0 k0]; [contradiction|]. cbn [is_nil negb].
+      rewrite (run_token_val s _ [] _ be d ctr true (c0 :: k0) Hs).
+      cbn [nw_run p_skip]. unfold nw_step at 1. cbv beta iota. cbn [N.eqb Pos.eqb orb negb].
+      rewrite Hset.
+      refine (eq_trans (IH rest cu be d ctr g n (a0 ++ [(c0 :: k0, VStr s)]) ab ltac:(discriminate) Hoks Hfr) _).
+      cbn [kv_attrs map fst snd]. rewrite <- app_assoc. reflexivity.
+  Qed.
+End Machine2.
+
+
+(* ---- distinct key lists ---- *)
+Lemma nodup_remove pre k r : names_nodup (pre ++ k :: r) = true -> names_nodup (pre ++ r) = true.
+Proof.
+  induction pre as [|x pre IH]; cbn [app names_nodup]; intros H.
+  - apply andb_true_iff in H as [_ H]. exact H.
+  - apply andb_true_iff in H as [H1 H2]. apply andb_true_iff. split; [|apply IH; exact H2].
+    apply negb_true_iff in H1. apply negb_true_iff.
+    rewrite existsb_app in H1 |- *. cbn [existsb] in H1.
+    apply orb_false_iff in H1 as [A B]. apply orb_false_iff in B as [_ B]. rewrite A, B. reflexivity.
+Qed.
+
+Lemma nodup_app_notin ks0 k r :
+  names_nodup (ks0 ++ k :: r) = true -> existsb (fun x => str_eqb x k) ks0 = false.
+Proof.
+  induction ks0 as [|x ks0 IH]; cbn [app names_nodup existsb]; intros H; [reflexivity|].
+  apply andb_true_iff in H as [H1 H2]. rewrite (IH H2). rewrite orb_false_r.
+  apply negb_true_iff in H1. rewrite existsb_app in H1. cbn [existsb] in H1.
+  apply orb_false_iff in H1 as [_ B]. apply orb_false_iff in B as [B _]. exact B.
+Qed.
+
+Lemma has_key_map k a : has_key k a = existsb (fun x => str_eqb x k) (map fst a).
+Proof. unfold has_key. induction a as [|kv a IH]; cbn [existsb map]; [reflexivity|]. rewrite IH. reflexivity. Qed.
+
+Lemma fresh_from kvs : forall a0,
+  names_nodup (map fst a0 ++ map fst kvs) = true -> fresh_keys kvs a0.
+Proof.
+  induction kvs as [|[k s] kvs IH]; intros a0 H; [exact I|].
+  cbn [fresh_keys]. cbn [map fst] in H. split.
+  - rewrite has_key_map. apply (nodup_app_notin _ k _ H).
+  - apply IH. rewrite map_app. cbn [map fst]. rewrite <- app_assoc. exact H.
+Qed.
+
+Section Full.
+  Variables (inter : bool) (len : str) (keys : list str) (pf : str).
+  Definition oF : nwopt := NwOpt inter len keys pf true.
+  Definition cfgF : nwcfg := NwCfg inter len [58] keys pf [58].
+  Definition laF : str := la_of oF.
+
+  Definition kv_pick (a : attrs) (k : str) : list (str * str) :=
+    match attr_get k a with
+    | Some (VStr s) => if nilb s then [] else [(k, s)]
+    | _ => []
+    end.
+  Definition kvs_on (ks : list str) (a : attrs) : list (str * str) := flat_map (kv_pick a) ks.
+  Definition kvs_of (a : attrs) := kvs_on keys a.
+
+  Definition skip_len (isroot : bool) : bool := nilb len || isroot.
+
+  Definition len_attr (isroot : bool) (a : attrs) : attrs :=
+    if skip_len isroot then []
+    else match attr_get len a with Some (VInt (Zpos p)) => [(len, VInt (Zpos p))] | _ => [] end.
+  Definition len_text (isroot : bool) (a : attrs) : str :=
+    if skip_len isroot then []
+    else match attr_get len a with Some (VInt (Zpos p)) => [58] ++ str_of_N (Npos p) | _ => [] end.
+  Definition attr_text (a : attrs) : str :=
+    match kvs_of a with
+    | [] => []
+    | kvs => [91] ++ pf ++ join [58] (map item kvs) ++ [93]
+    end.
+
+  (* the label: suppressed on internal nodes when intermediate names are not written *)
+  Definition name_text (leaf : bool) (n : str) : str := if inter || leaf then serialize n else [].
+
+  Fixpoint text (isroot : bool) (t : tree) : str :=
+    match t with
+    | T _ n a ks =>
+        match ks with
+        | [] => (name_text true n ++ len_text isroot a) ++ attr_text a
+        | _ => [40] ++ join [44] (map (text false) ks) ++ [41] ++ (name_text false n ++ len_text isroot a) ++ attr_text a
+        end
+    end.
+
+  (* guards *)
+  Definition keys_good : Prop :=
+    Forall (fun k => key_ok k = true) keys /\ names_nodup keys = true
+    /\ (nilb len = false -> key_ok len = true /\ existsb (str_eqb len) keys = false).
+
+  Definition node_good (isroot : bool) (t : tree) : Prop :=
+    node_in_alphabet oF t = true /\ (skip_len isroot = false -> len_ok oF t = true).
+
+  Inductive good : bool -> tree -> Prop :=
+  | good_node isroot g n a ks :
+      node_good isroot (T g n a ks) -> names_nodup (map tname ks) = true ->
+      Forall (good false) ks -> good isroot (T g n a ks).
+
+  Lemma lookup_attr_get k a : lookup k a = match attr_get k a with Some v => v | None => VNone end.
+  Proof. unfold lookup, attr_get. destruct (find _ a); reflexivity. Qed.
+
+  Lemma len_ok_inv t : len_ok oF t = true -> exists p, attr_get len (tattrs t) = Some (VInt (Zpos p)).
+  Proof.
+    unfold len_ok. cbn [oF o_len]. destruct (attr_get len (tattrs t)) as [[| z | | |]|]; try discriminate.
+    destruct z; try discriminate. intros _. eexists. reflexivity.
+  Qed.
+
+  (* --- the writer --- *)
+  Lemma name_str_good isroot leaf g n a ks :
+    node_good isroot (T g n a ks) ->
+    name_str cfgF isroot leaf n a = Ret (name_text leaf n ++ len_text isroot a).
+  Proof.
+    intros [_ Hl]. unfold name_str, len_text, skip_len, name_text in *. cbn [cfgF nw_inter nw_len nw_lsep].
+    rewrite is_nil_nilb. destruct (nilb len) eqn:El; cbn [negb andb orb] in *.
+    - rewrite app_nil_r. reflexivity.
+    - destruct isroot; cbn [negb] in *; [rewrite app_nil_r; reflexivity|].
+      destruct (len_ok_inv _ (Hl eq_refl)) as [p Hp]. cbn [tattrs] in Hp.
+      rewrite lookup_attr_get, Hp. cbn [truthy Z.eqb negb py_str str_of_Z]. reflexivity.
+  Qed.
+
+  Lemma attr_items_good a : forall ks,
+    forallb (fun k => match attr_get k a with
+                      | None => true | Some VNone => true
+                      | Some (VStr s) => negb (nilb s) && no_quote s
+                      | Some _ => false end) ks = true ->
+    attr_items ks a = Ret (map item (kvs_on ks a)).
+  Proof.
+    induction ks as [|k ks IH]; intros H; [reflexivity|].
+    cbn [forallb] in H. apply andb_true_iff in H as [Hk Hks].
+    cbn [attr_items]. unfold kvs_on. cbn [flat_map]. fold (kvs_on ks a). rewrite map_app.
+    rewrite (IH Hks). rewrite lookup_attr_get. unfold kv_pick.
+    destruct (attr_get k a) as [[| z | s | b | x y]|]; try discriminate; try reflexivity.
+    apply andb_true_iff in Hk as [Hs _]. cbn [truthy]. rewrite is_nil_nilb.
+    destruct (nilb s); [discriminate|]. reflexivity.
+  Qed.
+
+  Lemma item_nonempty kv : item kv <> [].
+  Proof. unfold item. destruct (serialize (fst kv)); discriminate. Qed.
+
+  Lemma join_items_nil kvs : kvs <> [] -> is_nil (join [58] (map item kvs)) = false.
+  Proof.
+    destruct kvs as [|kv kvs]; [contradiction|]. intros _.
+    pose proof (item_nonempty kv) as H.
+    destruct kvs as [|kv2 kvs]; cbn [map join].
+    - destruct (item kv); [contradiction|reflexivity].
+    - destruct (item kv); [contradiction|reflexivity].
+  Qed.
+
+  Lemma attr_str_good isroot g n a ks :
+    node_good isroot (T g n a ks) -> attr_str cfgF a = Ret (attr_text a).
+  Proof.
+    intros [Hn _]. unfold node_in_alphabet in Hn. apply andb_true_iff in Hn as [_ Hn].
+    cbn [oF o_keys tattrs] in Hn.
+    unfold attr_str, attr_text, kvs_of. cbn [cfgF nw_attrs nw_asep nw_prefix].
+    destruct keys as [|k0 ks0] eqn:Ek; [reflexivity|]. rewrite <- Ek in *.
+    rewrite (attr_items_good a keys Hn).
+    destruct (kvs_on keys a) as [|kv kvs] eqn:E; [reflexivity|].
+    rewrite join_items_nil by discriminate. reflexivity.
+  Qed.
+
+  Lemma nw_write_full t : forall isroot, good isroot t -> nw_write cfgF isroot t = Ret (text isroot t).
+  Proof.
+    induction t as [g n a ks IH] using tree_ind'. intros isroot Hg.
+    inversion Hg as [? ? ? ? ? Hnode Hdup Hkids]; subst.
+    cbn [nw_write text].
+    rewrite (name_str_good isroot (is_nil ks) g n a ks Hnode).
+    rewrite (attr_str_good isroot g n a ks Hnode).
+    destruct ks as [|k ks]; [reflexivity|].
+    assert (Hgo : forall l, Forall (fun t => forall isroot, good isroot t -> nw_write cfgF isroot t = Ret (text isroot t)) l ->
+                  Forall (good false) l ->
+             (fix go (l : list tree) : res (list str) :=
+                   match l with
+                   | [] => Ret []
+                   | k0 :: r =>
+                       match nw_write cfgF false k0 with
+                       | Raise e => Raise e
+                       | Ret s => match go r with Raise e => Raise e | Ret ss => Ret (s :: ss) end
+                       end
+                   end) l = Ret (map (text false) l)).
+    { intros l Hl Hgl. induction Hl as [|x l Hx Hl IHl]; [reflexivity|].
+      inversion Hgl as [|? ? Hgx Hgl']; subst.
+      rewrite (Hx false Hgx). rewrite (IHl Hgl'). reflexivity. }
+    rewrite (Hgo (k :: ks) IH Hkids). reflexivity.
+  Qed.
+End Full.
+
+
+Section FullMachine.
+  Variables (inter : bool) (len : str) (keys : list str) (pf : str).
+  Let la := laF inter len keys pf.
+
+  Hypothesis Hkeys : keys_good len keys.
+
+  (* the state in which a node's text has been consumed and only the terminator is missing *)
+  Definition ready (s : pst) (cu : list tree) (be : list (list tree)) (d : Z) (ctr : nat) (V : tree) : Prop :=
+    p_state s = PStr /\ p_val s = [] /\ p_skip s = 0%nat /\ p_below s = be /\ p_depth s = d /\
+    create_node on_last la (p_has s) (p_cum s) (p_ctr s) (p_above s) (p_cur s) = Ret (ctr, cu ++ [V]) /\
+    (cu = [] -> match p_cur s with
+                | [] => p_has s = false
+                | _ => create_node on_first la true (p_cum s) (p_ctr s) (p_above s) (p_cur s) = Ret (ctr, [V])
+                end).
+
+  Lemma ready_comma s cu be d ctr V rest :
+    ready s cu be d ctr V ->
+    nw_run la pf (44 :: rest) s = nw_run la pf rest (St [] (cu ++ [V]) be d ctr []).
+  Proof.
+    destruct s as [ab cu0 be0 d0 ctr0 st has cum val sk].
+    intros (H1 & H2 & H3 & H4 & H5 & H6 & _). cbn [p_state p_val p_skip p_below p_depth p_has p_cum p_ctr p_above p_cur] in *.
+    subst. cbn [nw_run p_skip]. unfold nw_step. cbn [N.eqb Pos.eqb orb andb].
+    rewrite H6. reflexivity.
+  Qed.
+
+  Lemma ready_close s cu be d ctr V rest :
+    ready s cu be d ctr V ->
+    nw_run la pf (41 :: rest) s = nw_run la pf rest (St (cu ++ [V]) (hd [] be) (tl be) (d - 1) ctr []).
+  Proof.
+    destruct s as [ab cu0 be0 d0 ctr0 st has cum val sk].
+    intros (H1 & H2 & H3 & H4 & H5 & H6 & _). cbn [p_state p_val p_skip p_below p_depth p_has p_cum p_ctr p_above p_cur] in *.
+    subst. cbn [nw_run p_skip]. unfold nw_step. cbn [N.eqb Pos.eqb orb andb].
+    rewrite H6. reflexivity.
+  Qed.
+
+  Lemma ready_finish s be ctr V : ready s [] be 1%Z ctr V -> nw_finish la s = Ret V.
+  Proof.
+    destruct s as [ab cu0 be0 d0 ctr0 st has cum val sk].
+    intros (H1 & H2 & H3 & H4 & H5 & H6 & H7). cbn [p_state p_val p_skip p_below p_depth p_has p_cum p_ctr p_above p_cur] in *.
+    specialize (H7 eq_refl). subst. unfold nw_finish. cbn [p_depth p_cur p_cum p_ctr p_above Z.eqb Pos.eqb negb].
+    destruct cu0 as [|x cu0].
+    - subst has. rewrite H6. reflexivity.
+    - rewrite H7. reflexivity.
+  Qed.
+
+  Lemma laF_len : nilb len = false -> la = len.
+  Proof. unfold la, laF, la_of. cbn [oF o_len]. intros ->. reflexivity. Qed.
+
+  (* the part of a node's text after its label: length and attributes.  cum0 is the pending label
+     ("" when the label is suppressed), nm / ctr' the name and counter _create_node will produce *)
+  Lemma node_tail isroot g n a ks0 (ab : list tree) rest cu be d ctr cum0 nm ctr' :
+    node_good inter len keys pf isroot (T g n a ks0) ->
+    create_node on_last la false cum0 ctr ab cu = Ret (ctr', cu ++ [T None nm [] ab]) ->
+    exists s',
+      nw_run la pf (len_text len isroot a ++ attr_text keys pf a ++ rest) (St ab cu be d ctr cum0)
+      = nw_run la pf rest s'
+      /\ ready s' cu be d ctr' (T None nm (len_attr len isroot a ++ kv_attrs (kvs_of keys a)) ab).
+  Proof.
+    intros [Hn Hl] Hcreate.
+    destruct Hkeys as (Hkok & Hknd & Hklen).
+    pose proof Hn as Hn'. unfold node_in_alphabet in Hn'. apply andb_true_iff in Hn' as [Hname Hvals].
+    cbn [tname tattrs oF o_keys] in Hname, Hvals.
+    (* the attribute items are well formed *)
+    assert (Hkv : Forall kv_ok (kvs_of keys a)).
+    { unfold kvs_of. clear - Hkok Hvals. induction keys as [|k ks IH]; [constructor|].
+      inversion Hkok as [|? ? Hk Hks]; subst. cbn [forallb] in Hvals. apply andb_true_iff in Hvals as [Hv Hvs].
+      unfold kvs_on. cbn [flat_map]. apply Forall_app. split; [|apply IH; assumption].
+      unfold kv_pick. revert Hv. destruct (attr_get k a) as [[| z | s | b | x y]|]; intros Hv; try constructor.
+      destruct (nilb s) eqn:Es; [constructor|]. constructor; [|constructor].
+      split; [exact Hk|]. cbn [snd negb andb] in Hv |- *. exact Hv. }
+    assert (Hsub : forall pre, names_nodup (pre ++ keys) = true ->
+                               names_nodup (pre ++ map fst (kvs_of keys a)) = true).
+    { unfold kvs_of. clear. induction keys as [|k ks IH]; intros pre H; [exact H|].
+      unfold kvs_on. cbn [flat_map]. rewrite map_app. fold (kvs_on ks a).
+      unfold kv_pick at 1.
+      destruct (attr_get k a) as [[| z | s | b | x y]|]; cbn [map app];
+        try (apply IH; apply (nodup_remove pre k ks H)).
+      destruct (nilb s); cbn [map app fst].
+      - apply IH. apply (nodup_remove pre k ks H).
+      - replace (pre ++ k :: map fst (kvs_on ks a)) with ((pre ++ [k]) ++ map fst (kvs_on ks a))
+          by (rewrite <- app_assoc; reflexivity).
+        apply IH. rewrite <- app_assoc. exact H. }
+    unfold len_text, len_attr, attr_text.
+    destruct (skip_len len isroot) eqn:Esk.
+    - (* no length *)
+      cbn [app].
+      destruct (kvs_of keys a) as [|kv kvs] eqn:Ekv.
+      + (* label only *)
+        cbn [app].
+        eexists. split; [reflexivity|].
+        unfold ready, St. cbn [p_state p_val p_skip p_below p_depth p_has p_cum p_ctr p_above p_cur kv_attrs map].
+        repeat split.
+        * exact Hcreate.
+        * intros ->. reflexivity.
+      + (* label [attrs] *)
+        cbn [app]. rewrite <- !app_assoc. rewrite run_cons.
+        assert (Hstep : forall rest', nw_step la pf 91 (pf ++ rest') (St ab cu be d ctr cum0)
+                        = Ret (mkP [] (cu ++ [T None nm [] ab]) be d ctr' PName true [] [] (length pf))).
+        { intros rest'. unfold nw_step, St. cbn [N.eqb Pos.eqb orb andb]. rewrite startswith_app.
+          rewrite Hcreate. reflexivity. }
+        rewrite Hstep. rewrite run_skip.
+        rewrite <- Ekv in *.
+        assert (Hne_kv : kvs_of keys a <> []) by (rewrite Ekv; discriminate).
+        pose proof (fresh_from (kvs_of keys a) [] (Hsub [] Hknd)) as Hfr.
+        cbn [app].
+        rewrite (items_run la pf (kvs_of keys a) rest cu be d ctr' None nm [] ab Hne_kv Hkv Hfr).
+        eexists. split; [reflexivity|].
+        unfold ready. cbn [p_state p_val p_skip p_below p_depth p_has p_cum p_ctr p_above p_cur app].
+        repeat split.
+        intros ->. cbn [app]. reflexivity.
+    - (* length *)
+      unfold skip_len in Esk. apply orb_false_iff in Esk as [Elen Eroot].
+      destruct (len_ok_inv inter len keys pf _ (Hl eq_refl)) as [p Hp].
+      cbn [tattrs] in Hp. rewrite Hp.
+      destruct (Hklen Elen) as [Hlk Hlnotin].
+      destruct (key_ok_facts len Hlk) as (_ & _ & Hlres).
+      pose proof (laF_len Elen) as Ela.
+      assert (Hcolon : forall rest', nw_step la pf 58 rest' (St ab cu be d ctr cum0)
+                       = Ret (mkP [] (cu ++ [T None nm [] ab]) be d ctr' PStr true [] [] 0)).
+      { intros rest'. unfold nw_step, St. cbn [N.eqb Pos.eqb orb andb].
+        rewrite Hcreate. reflexivity. }
+      assert (Hdig : str_of_N (N.pos p) <> []) by apply str_of_N_nonempty.
+      assert (Hsetlen : forall sel, (forall (f : tree -> tree) x, sel f (cu ++ [x]) = cu ++ [f x]) ->
+                 create_node sel la true (str_of_N (N.pos p)) ctr' [] (cu ++ [T None nm [] ab])
+                 = Ret (ctr', cu ++ [T None nm [(len, VInt (Z.pos p))] ab])).
+      { intros sel Hsel. unfold create_node. destruct (str_of_N (N.pos p)) as [|c0 r0] eqn:Ed; [contradiction|].
+        rewrite <- Ed. rewrite Ela, Hlres, length_val_pos. unfold attach. rewrite Hsel. reflexivity. }
+      destruct (kvs_of keys a) as [|kv kvs] eqn:Ekv.
+      + (* label:len *)
+        cbn [app]. rewrite run_cons, Hcolon.
+        unfold str_of_N at 1.
+        rewrite (run_chars_cum la pf _ rest [] _ be d ctr' PStr true [] [] I (uint_digits_plain _)).
+        cbn [app]. fold (str_of_N (N.pos p)).
+        eexists. split; [reflexivity|].
+        unfold ready. cbn [p_state p_val p_skip p_below p_depth p_has p_cum p_ctr p_above p_cur kv_attrs map].
+        repeat split.
+        * apply Hsetlen. intros f x. apply on_last_app.
+        * intros ->. cbn [app]. apply (Hsetlen on_first). intros f x. reflexivity.
+      + (* label:len[attrs] *)
+        rewrite <- !app_assoc.
+        cbn [app]. rewrite run_cons, Hcolon.
+        unfold str_of_N at 1.
+        rewrite (run_chars_cum la pf _ _ [] _ be d ctr' PStr true [] [] I (uint_digits_plain _)).
+        cbn [app]. fold (str_of_N (N.pos p)).
+        cbn [nw_run p_skip].
+        assert (Hstep : forall rest', nw_step la pf 91 (pf ++ rest')
+                                (mkP [] (cu ++ [T None nm [] ab]) be d ctr' PStr true (str_of_N (N.pos p)) [] 0)
+                        = Ret (mkP [] (cu ++ [T None nm [(len, VInt (Z.pos p))] ab]) be d ctr' PName true [] [] (length pf))).
+        { intros rest'. unfold nw_step. cbn [N.eqb Pos.eqb orb andb]. rewrite startswith_app.
+          rewrite (Hsetlen on_last (fun f x => on_last_app f cu x)). reflexivity. }
+        rewrite Hstep. rewrite run_skip.
+        rewrite <- Ekv in *.
+        assert (Hne_kv : kvs_of keys a <> []) by (rewrite Ekv; discriminate).
+        assert (Hnd : names_nodup ([len] ++ keys) = true).
+        { cbn [app names_nodup]. rewrite Hlnotin, Hknd. reflexivity. }
+        pose proof (fresh_from (kvs_of keys a) [(len, VInt (Z.pos p))] (Hsub [len] Hnd)) as Hfr.
+        cbn [app].
+        rewrite (items_run la pf (kvs_of keys a) rest cu be d ctr' None nm _ ab Hne_kv Hkv Hfr).
+        eexists. split; [reflexivity|].
+        unfold ready. cbn [p_state p_val p_skip p_below p_depth p_has p_cum p_ctr p_above p_cur app].
+        repeat split.
+        intros ->. cbn [app]. reflexivity.
+  Qed.
+
+  (* name and counter _create_node gives to a node *)
+  Definition out_name (leaf : bool) (n : str) (ctr : nat) : str :=
+    if inter || leaf then n else node_word ++ str_of_nat ctr.
+  Definition out_ctr (leaf : bool) (ctr : nat) : nat := if inter || leaf then ctr else S ctr.
+
+  Lemma create_blank ctr ks cu :
+    dup_names ks = false ->
+    create_node on_last la false [] ctr ks cu = Ret (S ctr, cu ++ [T None (node_word ++ str_of_nat ctr) [] ks]).
+  Proof.
+    intros Hd. unfold create_node. unfold attach. destruct ks as [|k ks]; [reflexivity|].
+    rewrite Hd. rewrite on_last_app. reflexivity.
+  Qed.
+
+  (* the part of a node's text after its children *)
+  Lemma node_run isroot leaf g n a ks0 (ab : list tree) rest cu be d ctr :
+    node_good inter len keys pf isroot (T g n a ks0) -> dup_names ab = false ->
+    exists s',
+      nw_run la pf ((name_text inter leaf n ++ len_text len isroot a) ++ attr_text keys pf a ++ rest)
+             (St ab cu be d ctr [])
+      = nw_run la pf rest s'
+      /\ ready s' cu be d (out_ctr leaf ctr)
+               (T None (out_name leaf n ctr) (len_attr len isroot a ++ kv_attrs (kvs_of keys a)) ab).
+  Proof.
+    intros Hnode Hdup.
+    pose proof Hnode as [Hn _]. unfold node_in_alphabet in Hn. apply andb_true_iff in Hn as [Hname _].
+    cbn [tname] in Hname. destruct (name_ok_inv n Hname) as [Hne Hq].
+    unfold name_text, out_name, out_ctr. rewrite <- app_assoc.
+    destruct (inter || leaf).
+    - rewrite (run_name la pf n _ ab cu be d ctr Hq).
+      apply (node_tail isroot g n a ks0 ab rest cu be d ctr n n ctr Hnode).
+      apply create_plain; assumption.
+    - cbn [app].
+      apply (node_tail isroot g n a ks0 ab rest cu be d ctr [] _ (S ctr) Hnode).
+      apply create_blank. exact Hdup.
+  Qed.
+End FullMachine.
+
+
+(* ---- the names the importer invents ---- *)
+Definition autoname (i : nat) : str := node_word ++ str_of_nat i.
+
+Lemma uint_digits_inj d : forall d', uint_digits d = uint_digits d' -> d = d'.
+Proof.
+  induction d; intros d' H; destruct d'; cbn [uint_digits] in H; try discriminate; try reflexivity;
+    inversion H as [H1]; f_equal; apply IHd; exact H1.
+Qed.
+
+Lemma to_uint_nonnil n : Nat.to_uint n <> Decimal.Nil.
+Proof.
+  pose proof (DecimalNat.Unsigned.to_of (Nat.to_uint n)) as H.
+  rewrite DecimalNat.Unsigned.of_to in H. rewrite H.
+  unfold Decimal.unorm. destruct (Decimal.nzhead (Nat.to_uint n)); discriminate.
+Qed.
+
+Lemma autoname_inj i j : autoname i = autoname j -> i = j.
+Proof.
+  unfold autoname, str_of_nat. intros H. apply app_inv_head in H.
+  apply uint_digits_inj in H. apply DecimalNat.Unsigned.to_uint_inj. exact H.
+Qed.
+
+Lemma autoname_auto i : auto_name (autoname i) = true.
+Proof.
+  unfold autoname, str_of_nat, node_word.
+  pose proof (to_uint_nonnil i) as Hn. pose proof (uint_digits_digit (Nat.to_uint i)) as Hd.
+  destruct (Nat.to_uint i) eqn:E; try contradiction; cbn [uint_digits app auto_name] in *; exact Hd.
+Qed.
+
+
+Section FullTree.
+  Variables (inter : bool) (len : str) (keys : list str) (pf : str).
+  Let la := laF inter len keys pf.
+  Hypothesis Hkeys : keys_good len keys.
+
+  (* the tree the importer rebuilds: rb isroot c t v c' -- starting with unlabelled-node counter c,
+     t is rebuilt as v and the counter becomes c' *)
+  Inductive rb : bool -> nat -> tree -> tree -> nat -> Prop :=
+  | rb_node isroot c g n a ks ks' c1 :
+      rbf c ks ks' c1 ->
+      rb isroot c (T g n a ks)
+         (T None (out_name inter (nilb ks) n c1) (len_attr len isroot a ++ kv_attrs (kvs_of keys a)) ks')
+         (out_ctr inter (nilb ks) c1)
+  with rbf : nat -> list tree -> list tree -> nat -> Prop :=
+  | rbf_nil c : rbf c [] [] c
+  | rbf_cons c k k' c' r r' c'' : rb false c k k' c' -> rbf c' r r' c'' -> rbf c (k :: r) (k' :: r') c''.
+
+  Lemma out_ctr_le leaf c : (c <= out_ctr inter leaf c)%nat.
+  Proof. unfold out_ctr. destruct (inter || leaf); lia. Qed.
+
+  Scheme rb_mut := Induction for rb Sort Prop
+  with rbf_mut := Induction for rbf Sort Prop.
+
+  Lemma rb_mono : forall isroot c t v c', rb isroot c t v c' -> (c <= c')%nat.
+  Proof.
+    apply (rb_mut (fun isroot c t v c' _ => (c <= c')%nat) (fun c ks ks' c' _ => (c <= c')%nat)).
+    - intros isroot c g n a ks ks' c1 _ IH. pose proof (out_ctr_le (nilb ks) c1). lia.
+    - intros. lia.
+    - intros. lia.
+  Qed.
+  Lemma rbf_mono : forall c ks ks' c', rbf c ks ks' c' -> (c <= c')%nat.
+  Proof.
+    apply (rbf_mut (fun isroot c t v c' _ => (c <= c')%nat) (fun c ks ks' c' _ => (c <= c')%nat)).
+    - intros isroot c g n a ks ks' c1 _ IH. pose proof (out_ctr_le (nilb ks) c1). lia.
+    - intros. lia.
+    - intros. lia.
+  Qed.
+
+  (* the name of a rebuilt node: the original one, or an invented one numbered inside [c, c') *)
+  Lemma rb_name isroot c t v c' :
+    rb isroot c t v c' ->
+    tname v = tname t \/ (inter = false /\ exists i, (c <= i < c')%nat /\ tname v = autoname i).
+  Proof.
+    intros H. inversion H as [? ? g n a ks ks' c1 Hf]; subst. cbn [tname].
+    unfold out_name, out_ctr. destruct inter; cbn [orb]; [left; reflexivity|].
+    destruct (nilb ks); [left; reflexivity|].
+    right. split; [reflexivity|]. exists c1. pose proof (rbf_mono _ _ _ _ Hf). split; [lia|reflexivity].
+  Qed.
+
+  Definition no_auto (t : tree) : Prop := inter = false -> auto_name (tname t) = false.
+
+  (* names of rebuilt siblings are distinct *)
+  Lemma rbf_names c ks ks' c' :
+    rbf c ks ks' c' ->
+    Forall (fun x => (exists k, In k ks /\ x = tname k)
+                     \/ (inter = false /\ exists i, (c <= i)%nat /\ x = autoname i)) (map tname ks').
+  Proof.
+    induction 1 as [c|c k k' c1 r r' c2 Hk Hr IH]; [constructor|].
+    cbn [map]. constructor.
+    - destruct (rb_name _ _ _ _ _ Hk) as [E|(Ei & i & Hi & E)].
+      + left. exists k. split; [left; reflexivity|exact E].
+      + right. split; [exact Ei|]. exists i. split; [lia|exact E].
+    - eapply Forall_impl; [|exact IH]. intros x [(kj & Hin & E)|(Ei & i & Hi & E)].
+      + left. exists kj. split; [right; exact Hin|exact E].
+      + right. split; [exact Ei|]. exists i. pose proof (rb_mono _ _ _ _ _ Hk). split; [lia|exact E].
+  Qed.
+
+  Lemma existsb_str_false x l : (forall y, In y l -> x <> y) -> existsb (str_eqb x) l = false.
+  Proof.
+    intros H. induction l as [|y l IH]; [reflexivity|].
+    cbn [existsb]. rewrite IH by (intros z Hz; apply H; right; exact Hz).
+    rewrite orb_false_r. apply str_eqb_neq. apply H. left. reflexivity.
+  Qed.
+
+  Lemma nodup_notin x l : names_nodup (x :: l) = true -> forall y, In y l -> x <> y.
+  Proof.
+    cbn [names_nodup]. intros H y Hy E. subst y. apply andb_true_iff in H as [H _].
+    apply negb_true_iff in H.
+    assert (existsb (str_eqb x) l = true).
+    { apply existsb_exists. exists x. split; [exact Hy|apply str_eqb_refl]. }
+    congruence.
+  Qed.
+
+  Lemma rbf_nodup c ks ks' c' :
+    rbf c ks ks' c' -> names_nodup (map tname ks) = true -> Forall no_auto ks ->
+    names_nodup (map tname ks') = true.
+  Proof.
+    induction 1 as [c|c k k' c1 r r' c2 Hk Hr IH]; intros Hnd Hna; [reflexivity|].
+    inversion Hna as [|? ? Hna_k Hna_r]; subst.
+    cbn [map names_nodup] in Hnd |- *. pose proof Hnd as Hnd'. apply andb_true_iff in Hnd' as [_ Hnd_r].
+    rewrite (IH Hnd_r Hna_r). rewrite andb_true_r. apply negb_true_iff.
+    apply existsb_str_false. intros y Hy.
+    pose proof (rbf_names _ _ _ _ Hr) as Hnames. eapply Forall_forall in Hnames; [|exact Hy].
+    destruct (rb_name _ _ _ _ _ Hk) as [E|(Ei & i & Hi & E)]; rewrite E.
+    - destruct Hnames as [(kj & Hin & Ey)|(Ei & j & Hj & Ey)]; subst y.
+      + apply (nodup_notin _ _ Hnd). apply in_map. exact Hin.
+      + intros Eq. pose proof (Hna_k Ei) as Hf. rewrite Eq, autoname_auto in Hf. discriminate.
+    - destruct Hnames as [(kj & Hin & Ey)|(_ & j & Hj & Ey)]; subst y.
+      + intros Eq. eapply Forall_forall in Hna_r; [|exact Hin].
+        pose proof (Hna_r Ei) as Hf. rewrite <- Eq, autoname_auto in Hf. discriminate.
+      + intros Eq. apply autoname_inj in Eq. lia.
+  Qed.
+
+  (* guards: as before, plus no reserved (nodeN) name when labels are suppressed *)
+  Inductive good2 : bool -> tree -> Prop :=
+  | good2_node isroot g n a ks :
+      node_good inter len keys pf isroot (T g n a ks) -> names_nodup (map tname ks) = true ->
+      Forall no_auto ks -> Forall (good2 false) ks -> good2 isroot (T g n a ks).
+
+  Definition core2 (isroot : bool) (t : tree) : Prop :=
+    forall rest cu be d ctr, exists s' v ctr',
+      rb isroot ctr t v ctr'
+      /\ nw_run la pf (text inter len keys pf isroot t ++ rest) (St [] cu be d ctr []) = nw_run la pf rest s'
+      /\ ready inter len keys pf s' cu be d ctr' v.
+
+  Lemma forest2 ks :
+    ks <> [] -> Forall (core2 false) ks ->
+    forall rest cu be d ctr, exists ks' ctr',
+      rbf ctr ks ks' ctr'
+      /\ nw_run la pf (join [44] (map (text inter len keys pf false) ks) ++ 41 :: rest) (St [] cu be d ctr [])
+         = nw_run la pf rest (St (cu ++ ks') (hd [] be) (tl be) (d - 1) ctr' []).
+  Proof.
+    induction ks as [|k ks IH]; intros Hne Hc rest cu be d ctr; [contradiction|].
+    inversion Hc as [|? ? Hk Hks]; subst.
+    destruct ks as [|k2 ks].
+    - cbn [map join]. destruct (Hk (41 :: rest) cu be d ctr) as (s' & v & c' & R & E & Rd).
+      exists [v], c'. split; [econstructor; [exact R|constructor]|].
+      rewrite E. apply (ready_close inter len keys pf s' cu be d c' _ rest Rd).
+    - change (map (text inter len keys pf false) (k :: k2 :: ks))
+        with (text inter len keys pf false k :: map (text inter len keys pf false) (k2 :: ks)).
+      change (join [44] (text inter len keys pf false k :: map (text inter len keys pf false) (k2 :: ks)))
+        with (text inter len keys pf false k ++ [44] ++ join [44] (map (text inter len keys pf false) (k2 :: ks))).
+      rewrite <- !app_assoc. cbn [app].
+      destruct (Hk (44 :: join [44] (map (text inter len keys pf false) (k2 :: ks)) ++ 41 :: rest) cu be d ctr)
+        as (s' & v & c' & R & E & Rd).
+      destruct (IH ltac:(discriminate) Hks rest (cu ++ [v]) be d c') as (ks' & c'' & Rf & Ef).
+      exists (v :: ks'), c''. split; [econstructor; eassumption|].
+      rewrite E. rewrite (ready_comma inter len keys pf s' cu be d c' _ _ Rd).
+      etransitivity; [exact Ef|]. rewrite <- app_assoc. reflexivity.
+  Qed.
+
+  Lemma rbf_tnames_inter c ks ks' c' : rbf c ks ks' c' -> inter = true -> map tname ks' = map tname ks.
+  Proof.
+    induction 1 as [c|c k k' c1 r r' c2 Hk Hr IH]; intros Ei; [reflexivity|].
+    cbn [map]. rewrite (IH Ei). f_equal.
+    destruct (rb_name _ _ _ _ _ Hk) as [E|(Ef & _)]; [exact E|congruence].
+  Qed.
+
+  Lemma core2_all t : forall isroot, good2 isroot t -> core2 isroot t.
+  Proof.
+    induction t as [g n a ks IH] using tree_ind'. intros isroot Hg.
+    inversion Hg as [? ? ? ? ? Hnode Hdup Hna Hkids]; subst.
+    intros rest cu be d ctr. cbn [text].
+    destruct ks as [|k ks].
+    - rewrite <- app_assoc.
+      destruct (node_run inter len keys pf Hkeys isroot true g n a [] [] rest cu be d ctr Hnode eq_refl) as (s' & E & R).
+      eexists s', _, _. split; [apply (rb_node isroot ctr g n a [] [] ctr); constructor|].
+      split; [exact E|exact R].
+    - assert (Hcore : Forall (core2 false) (k :: ks)).
+      { apply Forall_forall. intros x Hx. eapply Forall_forall in IH; eauto. apply IH.
+        eapply Forall_forall in Hkids; eauto. }
+      rewrite <- !app_assoc. cbn [app]. rewrite run_cons, step_open.
+      destruct (forest2 (k :: ks) ltac:(discriminate) Hcore
+                        (name_text inter false n ++ len_text len isroot a ++ attr_text keys pf a ++ rest)
+                        [] (cu :: be) (d + 1)%Z ctr) as (ks' & c1 & Rf & Ef).
+      rewrite Ef. cbn [hd tl app]. replace (d + 1 - 1)%Z with d by lia. rewrite app_assoc.
+      assert (Hdupv : dup_names ks' = false).
+      { unfold dup_names. rewrite str_nodupb_names. rewrite (rbf_nodup _ _ _ _ Rf Hdup Hna). reflexivity. }
+      destruct (node_run inter len keys pf Hkeys isroot false g n a (k :: ks) ks' rest cu be d c1 Hnode Hdupv)
+        as (s' & E & R).
+      eexists s', _, _. split; [apply (rb_node isroot ctr g n a (k :: ks) ks' c1 Rf)|].
+      split; [exact E|exact R].
+  Qed.
+
+  Lemma text_nonempty2 isroot t : good2 isroot t -> text inter len keys pf isroot t <> [].
+  Proof.
+    intros Hg. inversion Hg as [? g n a ks [Hn _] _ _ _]; subst.
+    unfold node_in_alphabet in Hn. apply andb_true_iff in Hn as [Hn _]. cbn [tname] in Hn.
+    apply name_ok_inv in Hn as [Hne _].
+    cbn [text]. destruct ks; [|discriminate].
+    unfold name_text. rewrite orb_true_r.
+    unfold serialize. destruct (has_special n); [discriminate|].
+    destruct n; [contradiction|discriminate].
+  Qed.
+
+  Theorem nw_parse_full2 isroot t :
+    good2 isroot t ->
+    exists v c', rb isroot 0 t v c' /\ nw_parse la pf (text inter len keys pf isroot t) = Ret v.
+  Proof.
+    intros Hg. pose proof (text_nonempty2 isroot t Hg) as Hne.
+    assert (Hp : forall s, s <> [] ->
+                 nw_parse la pf s = match nw_run la pf s p_init with
+                                    | Raise e => Raise e
+                                    | Ret st => nw_finish la st
+                                    end).
+    { intros [|c0 s0] Hs; [contradiction|reflexivity]. }
+    rewrite (Hp _ Hne). clear Hp Hne.
+    destruct (core2_all t isroot Hg [] [] [] 1%Z 0%nat) as (s' & v & c' & R & E & Rd).
+    exists v, c'. split; [exact R|].
+    rewrite app_nil_r in E. change p_init with (St [] [] [] 1 0 []). rewrite E. cbn [nw_run].
+    apply (ready_finish inter len keys pf s' [] c' _ Rd).
+  Qed.
+End FullTree.
+
+
+(* ------------------------------------------------------------------------------------------ *)
+(* the reference reader on the full writer output                                              *)
+
+Definition stopb (rest : str) : bool :=
+  match rest with [] => true | c :: _ => newick_special c end.
+
+Lemma span_plain_stop n : forall rest,
+  has_special n = false -> stopb rest = true ->
+  span_p (fun c => negb (newick_special c)) (n ++ rest) = (n, rest).
+Proof.
+  induction n as [|c n IH]; intros rest Hs Ht.
+  - cbn [app]. destruct rest as [|c r]; [reflexivity|].
+    cbn [span_p]. cbn [stopb] in Ht. rewrite Ht. reflexivity.
+  - unfold has_special in Hs. cbn [existsb] in Hs. apply orb_false_iff in Hs as [Hc Hn].
+    cbn [app span_p]. change (newick_special c) with (memN c nw_specials). rewrite Hc. cbn [negb].
+    rewrite (IH rest Hn Ht). reflexivity.
+Qed.
+
+Lemma rd_label_stop n rest :
+  no_quote n = true -> n <> [] -> stopb rest = true ->
+  rd_label (serialize n ++ rest) = Some (n, rest).
+Proof.
+  intros Hq Hne Ht. unfold serialize. destruct (has_special n) eqn:Hs.
+  - rewrite (requote_id n Hq). cbn [app rd_label]. unfold q. cbn [N.eqb Pos.eqb].
+    rewrite <- app_assoc. cbn [app]. apply rd_quoted_app. exact Hq.
+  - destruct n as [|c n]; [contradiction|].
+    pose proof Hs as Hs'. unfold has_special in Hs'. cbn [existsb] in Hs'.
+    apply orb_false_iff in Hs' as [Hc _].
+    destruct (not_special_chars c Hc) as (_ & _ & _ & _ & _ & H6 & _ & _).
+    cbn [app rd_label]. unfold q. rewrite H6.
+    change (c :: n ++ rest) with ((c :: n) ++ rest). rewrite (span_plain_stop (c :: n) rest Hs Ht).
+    reflexivity.
+Qed.
+
+(* digits *)
+Lemma span_digits d : forall rest,
+  match rest with [] => true | c :: _ => negb (digitb c) end = true ->
+  span_p digitb (uint_digits d ++ rest) = (uint_digits d, rest).
+Proof.
+  intros rest Hr.
+  assert (G : forall l, forallb digitb l = true -> span_p digitb (l ++ rest) = (l, rest)).
+  { induction l as [|c l IH]; intros Hl.
+    - cbn [app]. destruct rest as [|c r]; [reflexivity|]. cbn [span_p].
+      apply negb_true_iff in Hr. rewrite Hr. reflexivity.
+    - cbn [forallb] in Hl. apply andb_true_iff in Hl as [Hc Hl].
+      cbn [app span_p]. rewrite Hc, (IH Hl). reflexivity. }
+  apply G. clear. induction d; cbn [uint_digits forallb]; try reflexivity; rewrite IHd; reflexivity.
+Qed.
+
+Lemma digits_value_str p : digits_value (str_of_N (Npos p)) = Zpos p.
+Proof.
+  unfold digits_value. pose proof (N_of_digits_str (Npos p)) as H. unfold N_of_digits in H.
+  rewrite H. reflexivity.
+Qed.
+
+Lemma rd_kvs_items kvs : forall fuel rest,
+  kvs <> [] -> Forall kv_ok kvs ->
+  Forall (fun kv : str * str => snd kv <> []) kvs ->
+  (length kvs <= fuel)%nat ->
+  rd_kvs fuel (join [58] (map item kvs) ++ 93 :: rest) = Some (kv_attrs kvs, rest).
+Proof.
+  induction kvs as [|[k s] kvs IH]; intros fuel rest Hne Hok Hsn Hf; [contradiction|].
+  inversion Hok as [|? ? [Hk Hs] Hoks]; subst. cbn [fst snd] in Hk, Hs.
+  inversion Hsn as [|? ? Hs1 Hsns]; subst. cbn [snd] in Hs1.
+  destruct (key_ok_facts k Hk) as (Hkne & Hkq & _).
+  destruct fuel as [|f]; [cbn in Hf; lia|]. cbn [length] in Hf.
+  destruct kvs as [|kv2 kvs].
+  - cbn [map join]. unfold item. cbn [fst snd rd_kvs]. rewrite <- !app_assoc. cbn [app].
+    rewrite (rd_label_stop k (61 :: _) Hkq Hkne eq_refl). cbn [N.eqb Pos.eqb].
+    rewrite (rd_label_stop s (93 :: _) Hs Hs1 eq_refl). cbn [N.eqb Pos.eqb]. reflexivity.
+  - change (map item ((k, s) :: kv2 :: kvs)) with (item (k, s) :: map item (kv2 :: kvs)).
+    change (join [58] (item (k, s) :: map item (kv2 :: kvs)))
+      with (item (k, s) ++ [58] ++ join [58] (map item (kv2 :: kvs))).
+    unfold item at 1. cbn [fst snd rd_kvs]. rewrite <- !app_assoc. cbn [app].
+    rewrite (rd_label_stop k (61 :: _) Hkq Hkne eq_refl). cbn [N.eqb Pos.eqb].
+    rewrite (rd_label_stop s (58 :: _) Hs Hs1 eq_refl). cbn [N.eqb Pos.eqb].
+    rewrite (IH f rest ltac:(discriminate) Hoks Hsns ltac:(cbn [length] in *; lia)).
+    reflexivity.
+Qed.
+
+Lemma special_not_digit c : newick_special c = true -> digitb c = false.
+Proof.
+  unfold newick_special, memN. cbn [existsb]. intros H.
+  repeat (apply orb_true_iff in H as [H|H]; [apply N.eqb_eq in H; subst; reflexivity|]).
+  discriminate.
+Qed.
+
+Lemma skipn_app_exact {A} (p x : list A) : skipn (length p) (p ++ x) = x.
+Proof. induction p as [|a p IH]; [reflexivity|]. cbn [length app skipn]. exact IH. Qed.
+
+Lemma join_items_len kvs : (length kvs <= length (join [58%N] (map item kvs)))%nat.
+Proof.
+  induction kvs as [|kv kvs IH]; [cbn; lia|].
+  pose proof (item_nonempty kv) as Hi.
+  assert (1 <= length (item kv))%nat by (destruct (item kv); [contradiction|cbn; lia]).
+  destruct kvs as [|kv2 kvs].
+  - cbn [map join length]. lia.
+  - change (map item (kv :: kv2 :: kvs)) with (item kv :: map item (kv2 :: kvs)).
+    change (join [58] (item kv :: map item (kv2 :: kvs)))
+      with (item kv ++ [58] ++ join [58] (map item (kv2 :: kvs))).
+    rewrite !app_length. cbn [length] in *. lia.
+Qed.
+
+Lemma match_nocolon {B} (R : str) (f : N -> str -> B) (y : B) :
+  match R with c :: _ => N.eqb c 58 = false | [] => True end ->
+  match R with c :: r => if N.eqb c 58 then f c r else y | [] => y end = y.
+Proof. destruct R; intros H; [reflexivity|rewrite H; reflexivity]. Qed.
+
+Lemma rd_label_blank R :
+  match R with [] => true | c :: _ => N.eqb c 58 || N.eqb c 91 || N.eqb c 44 || N.eqb c 41 end = true ->
+  rd_label R = Some ([], R).
+Proof.
+  destruct R as [|c r]; [reflexivity|]. intros H. cbn [rd_label].
+  repeat (apply orb_true_iff in H as [H|H]); apply N.eqb_eq in H; subst; reflexivity.
+Qed.
+
+Section ReaderFull.
+  Variables (inter : bool) (len : str) (keys : list str) (pf : str).
+  Let la := laF inter len keys pf.
+  Hypothesis Hkeys : keys_good len keys.
+
+  Lemma kvs_of_ok a :
+    forallb (fun k => match attr_get k a with
+                      | None => true | Some VNone => true
+                      | Some (VStr s) => negb (nilb s) && no_quote s
+                      | Some _ => false end) keys = true ->
+    Forall kv_ok (kvs_of keys a) /\ Forall (fun kv : str * str => snd kv <> []) (kvs_of keys a).
+  Proof.
+    destruct Hkeys as (Hkok & _ & _). unfold kvs_of. clear Hkeys. intros Hvals.
+    induction keys as [|k ks IH]; [split; constructor|].
+    inversion Hkok as [|? ? Hk Hks]; subst. cbn [forallb] in Hvals. apply andb_true_iff in Hvals as [Hv Hvs].
+    destruct (IH Hks Hvs) as [I1 I2].
+    unfold kvs_on. cbn [flat_map]. split; apply Forall_app; (split; [|assumption]).
+    - unfold kv_pick. revert Hv. destruct (attr_get k a) as [[| z | s | b | x y]|]; intros Hv; try constructor.
+      destruct (nilb s) eqn:Es; [constructor|]. constructor; [|constructor].
+      split; [exact Hk|]. cbn [snd negb andb] in Hv |- *. exact Hv.
+    - unfold kv_pick. destruct (attr_get k a) as [[| z | s | b | x y]|]; try constructor.
+      destruct (nilb s) eqn:Es; [constructor|]. constructor; [|constructor].
+      cbn [snd]. intros ->. discriminate.
+  Qed.
+
+  Definition shown_name (leaf : bool) (n : str) : str := if inter || leaf then n else [].
+
+  Lemma rd_node_full isroot leaf g n a ks0 ks rest :
+    node_good inter len keys pf isroot (T g n a ks0) -> termb rest = true ->
+    rd_node la pf ks ((name_text inter leaf n ++ len_text len isroot a) ++ attr_text keys pf a ++ rest)
+    = Some (T None (shown_name leaf n) (len_attr len isroot a ++ kv_attrs (kvs_of keys a)) ks, rest).
+  Proof.
+    intros [Hn Hl] Ht.
+    pose proof Hn as Hn'. unfold node_in_alphabet in Hn'. apply andb_true_iff in Hn' as [Hname Hvals].
+    cbn [tname tattrs oF o_keys] in Hname, Hvals.
+    destruct (name_ok_inv n Hname) as [Hne Hq].
+    destruct (kvs_of_ok a Hvals) as [Hkv Hsn].
+    destruct Hkeys as (Hkok & Hknd & Hklen).
+    assert (Hstop_rest : stopb rest = true).
+    { destruct rest as [|c r]; [reflexivity|]. apply (termb_special c r Ht). }
+    (* the attribute part, read after the label and the length *)
+    assert (Hattr : forall lenattrs,
+               match attr_text keys pf a ++ rest with
+               | c :: r =>
+                   if N.eqb c 91 then
+                     if startswith r pf then
+                       match rd_kvs (S (length r)) (skipn (length pf) r) with
+                       | Some (ats, r3) => Some (T None (shown_name leaf n) (lenattrs ++ ats) ks, r3)
+                       | None => None
+                       end
+                     else None
+                   else Some (T None (shown_name leaf n) lenattrs ks, attr_text keys pf a ++ rest)
+               | [] => Some (T None (shown_name leaf n) lenattrs ks, attr_text keys pf a ++ rest)
+               end = Some (T None (shown_name leaf n) (lenattrs ++ kv_attrs (kvs_of keys a)) ks, rest)).
+    { intros lenattrs. unfold attr_text.
+      destruct (kvs_of keys a) as [|kv kvs] eqn:Ekv.
+      - cbn [app kv_attrs map]. rewrite app_nil_r.
+        destruct rest as [|c r]; [reflexivity|].
+        cbn [termb] in Ht. apply orb_true_iff in Ht as [H|H]; apply N.eqb_eq in H; subst; reflexivity.
+      - rewrite <- Ekv in *. cbn [app]. rewrite <- !app_assoc. cbn [N.eqb Pos.eqb].
+        rewrite startswith_app. rewrite skipn_app_exact. cbn [app].
+        assert (Hne_kv : kvs_of keys a <> []) by (rewrite Ekv; discriminate).
+        rewrite (rd_kvs_items (kvs_of keys a) _ rest Hne_kv Hkv Hsn).
+        + reflexivity.
+        + pose proof (join_items_len (kvs_of keys a)). rewrite !app_length. lia. }
+    assert (Hstop_R : stopb (attr_text keys pf a ++ rest) = true).
+    { unfold attr_text. destruct (kvs_of keys a); [exact Hstop_rest|reflexivity]. }
+    assert (Hlabel : forall R,
+               match R with [] => true | c :: _ => N.eqb c 58 || N.eqb c 91 || N.eqb c 44 || N.eqb c 41 end = true ->
+               rd_label (name_text inter leaf n ++ R) = Some (shown_name leaf n, R)).
+    { intros R HR. unfold name_text, shown_name. destruct (inter || leaf).
+      - apply rd_label_stop; [exact Hq|exact Hne|].
+        destruct R as [|c r]; [reflexivity|]. cbn [stopb].
+        repeat (apply orb_true_iff in HR as [HR|HR]); apply N.eqb_eq in HR; subst; reflexivity.
+      - cbn [app]. apply rd_label_blank. exact HR. }
+    assert (Hhead_rest : match rest with [] => true | c :: _ => N.eqb c 58 || N.eqb c 91 || N.eqb c 44 || N.eqb c 41 end = true).
+    { destruct rest as [|c r]; [reflexivity|]. cbn [termb] in Ht.
+      apply orb_true_iff in Ht as [H|H]; apply N.eqb_eq in H; subst; reflexivity. }
+    assert (Hhead_R : match attr_text keys pf a ++ rest with [] => true | c :: _ => N.eqb c 58 || N.eqb c 91 || N.eqb c 44 || N.eqb c 41 end = true).
+    { unfold attr_text. destruct (kvs_of keys a); [exact Hhead_rest|reflexivity]. }
+    unfold rd_node, len_text, len_attr.
+    destruct (skip_len len isroot) eqn:Esk.
+    - rewrite app_nil_r. rewrite (Hlabel _ Hhead_R).
+      cbn [app].
+      assert (Hnocolon : match attr_text keys pf a ++ rest with
+                         | c :: r => N.eqb c 58 = false | [] => True end).
+      { unfold attr_text. destruct (kvs_of keys a).
+        - cbn [app]. destruct rest as [|c r]; [exact I|].
+          cbn [termb] in Ht. apply orb_true_iff in Ht as [H|H]; apply N.eqb_eq in H; subst; reflexivity.
+        - reflexivity. }
+      rewrite (match_nocolon (attr_text keys pf a ++ rest) _ _ Hnocolon).
+      exact (Hattr []).
+    - unfold skip_len in Esk. apply orb_false_iff in Esk as [Elen Eroot].
+      destruct (len_ok_inv inter len keys pf _ (Hl eq_refl)) as [p Hp].
+      cbn [tattrs] in Hp. rewrite Hp.
+      pose proof (laF_len inter len keys pf Elen) as Ela. fold la in Ela.
+      rewrite <- !app_assoc. cbn [app].
+      rewrite (Hlabel (58 :: _) eq_refl). cbn [N.eqb Pos.eqb].
+      unfold str_of_N at 1.
+      rewrite span_digits.
+      + fold (str_of_N (N.pos p)).
+        assert (Hnn : nilb (str_of_N (N.pos p)) = false).
+        { destruct (str_of_N (N.pos p)) as [|c0 r0] eqn:Ed; [exfalso; apply (str_of_N_nonempty p Ed)|reflexivity]. }
+        rewrite Hnn. rewrite digits_value_str, Ela.
+        exact (Hattr [(len, VInt (Z.pos p))]).
+      + destruct (attr_text keys pf a ++ rest) as [|c r]; [reflexivity|].
+        cbn [stopb] in Hstop_R. rewrite (special_not_digit c Hstop_R). reflexivity.
+  Qed.
+End ReaderFull.
+
+Section ReaderFullTree.
+  Variables (inter : bool) (len : str) (keys : list str) (pf : str).
+  Let la := laF inter len keys pf.
+  Hypothesis Hkeys : keys_good len keys.
+
+  (* what the text denotes: labels as written (blank where suppressed) *)
+  Fixpoint sview (isroot : bool) (t : tree) : tree :=
+    match t with
+    | T _ n a ks => T None (shown_name inter (nilb ks) n) (len_attr len isroot a ++ kv_attrs (kvs_of keys a))
+                      (map (sview false) ks)
+    end.
+
+  Definition reads_full (isroot : bool) (t : tree) : Prop :=
+    forall fuel rest, termb rest = true -> (length (text inter len keys pf isroot t) < fuel)%nat ->
+      rd_tree fuel la pf (text inter len keys pf isroot t ++ rest) = Some (sview isroot t, rest).
+
+  Lemma forest_reads_full ks :
+    ks <> [] -> Forall (reads_full false) ks -> Forall (good2 inter len keys pf false) ks ->
+    forall fuel rest, (length (join [44%N] (map (text inter len keys pf false) ks)) + 1 < fuel)%nat ->
+      rd_forest fuel la pf (join [44] (map (text inter len keys pf false) ks) ++ 41 :: rest)
+      = Some (map (sview false) ks, rest).
+  Proof.
+    induction ks as [|k ks IH]; intros Hne Hr Hok fuel rest Hf; [contradiction|].
+    inversion Hr as [|? ? Hk Hks]; subst. inversion Hok as [|? ? Ok_k Ok_ks]; subst.
+    destruct fuel as [|f]; [lia|].
+    destruct ks as [|k2 ks].
+    - cbn [map join] in *. cbn [rd_forest].
+      rewrite (Hk f (41 :: rest) eq_refl ltac:(lia)). cbn [N.eqb Pos.eqb]. reflexivity.
+    - change (map (text inter len keys pf false) (k :: k2 :: ks))
+        with (text inter len keys pf false k :: map (text inter len keys pf false) (k2 :: ks)) in *.
+      change (join [44] (text inter len keys pf false k :: map (text inter len keys pf false) (k2 :: ks)))
+        with (text inter len keys pf false k ++ [44] ++ join [44] (map (text inter len keys pf false) (k2 :: ks))) in *.
+      rewrite !app_length in Hf. cbn [length] in Hf.
+      pose proof (text_nonempty2 inter len keys pf false k Ok_k) as Hk_ne.
+      assert (0 < length (text inter len keys pf false k))%nat
+        by (destruct (text inter len keys pf false k); [contradiction|cbn; lia]).
+      rewrite <- !app_assoc. cbn [rd_forest app].
+      rewrite (Hk f (44 :: _) eq_refl ltac:(lia)). cbn [N.eqb Pos.eqb].
+      rewrite (IH ltac:(discriminate) Hks Ok_ks f rest ltac:(lia)). reflexivity.
+  Qed.
+
+  Lemma reads_full_all t : forall isroot, good2 inter len keys pf isroot t -> reads_full isroot t.
+  Proof.
+    induction t as [g n a ks IH] using tree_ind'. intros isroot Hg.
+    inversion Hg as [? ? ? ? ? Hnode Hdup Hna Hkids]; subst.
+    pose proof Hnode as [Hn _]. unfold node_in_alphabet in Hn. apply andb_true_iff in Hn as [Hname _].
+    cbn [tname] in Hname. destruct (name_ok_inv n Hname) as [Hne Hq].
+    intros fuel rest Ht Hf. destruct fuel as [|f]; [lia|].
+    destruct ks as [|k ks].
+    - cbn [text sview map rd_tree nilb]. rewrite <- app_assoc.
+      destruct ((name_text inter true n ++ len_text len isroot a) ++ attr_text keys pf a ++ rest) as [|c r] eqn:E.
+      + rewrite <- E. apply (rd_node_full inter len keys pf Hkeys isroot true g n a [] [] rest Hnode Ht).
+      + assert (Hc : N.eqb c 40 = false).
+        { unfold name_text in E. rewrite orb_true_r in E. rewrite <- app_assoc in E.
+          apply (ser_head n _ c r Hne Hq E). }
+        rewrite Hc. rewrite <- E. apply (rd_node_full inter len keys pf Hkeys isroot true g n a [] [] rest Hnode Ht).
+    - assert (Hreads : Forall (reads_full false) (k :: ks)).
+      { apply Forall_forall. intros x Hx. eapply Forall_forall in IH; eauto. apply IH.
+        eapply Forall_forall in Hkids; eauto. }
+      cbn [text sview nilb] in *. rewrite !app_length in Hf. cbn [length] in Hf.
+      rewrite <- !app_assoc. cbn [app rd_tree N.eqb Pos.eqb].
+      rewrite (forest_reads_full (k :: ks) ltac:(discriminate) Hreads Hkids f _ ltac:(lia)).
+      rewrite app_assoc.
+      apply (rd_node_full inter len keys pf Hkeys isroot false g n a (k :: ks) _ rest Hnode Ht).
+  Qed.
+
+  Theorem newick_read_full isroot t :
+    good2 inter len keys pf isroot t ->
+    newick_read la pf (text inter len keys pf isroot t) = Some (sview isroot t).
+  Proof.
+    intros Hg. unfold newick_read.
+    pose proof (reads_full_all t isroot Hg (S (length (text inter len keys pf isroot t))) [] eq_refl ltac:(lia)) as H.
+    rewrite app_nil_r in H. rewrite H. reflexivity.
+  Qed.
+End ReaderFullTree.
+
+
+Section Glue.
+  Variables (inter : bool) (len : str) (keys : list str) (pf : str).
+  Let o := oF inter len keys pf.
+
+  (* the attribute part of the spec's view *)
+  Definition view_attrs (isroot : bool) (a : attrs) : attrs :=
+    (if nilb len || isroot then []
+     else match attr_get len a with Some v => [(len, v)] | None => [] end)
+    ++ flat_map (fun k => match attr_get k a with
+                          | Some VNone | None => []
+                          | Some v => [(k, v)]
+                          end) keys.
+
+  Lemma view_attrs_good isroot g n a ks :
+    node_good inter len keys pf isroot (T g n a ks) ->
+    view_attrs isroot a = len_attr len isroot a ++ kv_attrs (kvs_of keys a).
+  Proof.
+    intros [Hn Hl]. unfold view_attrs. f_equal.
+    - unfold len_attr, skip_len in *. destruct (nilb len || isroot) eqn:E; [reflexivity|].
+      destruct (len_ok_inv inter len keys pf _ (Hl eq_refl)) as [p Hp]. cbn [tattrs] in Hp. rewrite Hp. reflexivity.
+    - unfold node_in_alphabet in Hn. apply andb_true_iff in Hn as [_ Hv]. cbn [tattrs oF o_keys] in Hv.
+      unfold kvs_of. clear - Hv. induction keys as [|k ks IH]; [reflexivity|].
+      cbn [forallb] in Hv. apply andb_true_iff in Hv as [Hk Hks].
+      unfold kvs_on. cbn [flat_map]. unfold kv_attrs. rewrite map_app. fold (kvs_on ks a). fold (kv_attrs (kvs_on ks a)).
+      rewrite (IH Hks). f_equal. unfold kv_pick.
+      destruct (attr_get k a) as [[| z | s | b | x y]|]; try discriminate; try reflexivity.
+      destruct (nilb s); [discriminate|reflexivity].
+  Qed.
+
+  Lemma nw_view_unfold isroot g n a ks :
+    nw_view o isroot (T g n a ks)
+    = T None (shown_name inter (nilb ks) n) (view_attrs isroot a) (map (nw_view o false) ks).
+  Proof. reflexivity. Qed.
+
+  Lemma sview_is_nw_view t : forall isroot,
+    good2 inter len keys pf isroot t -> nw_view o isroot t = sview inter len keys isroot t.
+  Proof.
+    induction t as [g n a ks IH] using tree_ind'. intros isroot Hg.
+    inversion Hg as [? ? ? ? ? Hnode Hdup Hna Hkids]; subst.
+    rewrite nw_view_unfold. cbn [sview]. rewrite (view_attrs_good isroot g n a ks Hnode). f_equal.
+    clear Hdup Hnode Hna Hg. induction IH as [|k ks Hk Hks IHk]; [reflexivity|].
+    inversion Hkids as [|? ? Hg1 Hg2]; subst. cbn [map]. rewrite (Hk false Hg1), (IHk Hg2). reflexivity.
+  Qed.
+
+  (* normal form in which prop_newick_back compares *)
+  Definition nz (x : tree) : tree := if inter then sort_tree x else blank_internal (sort_tree x).
+
+  Lemma nz_node nm1 nm2 a ks1 ks2 :
+    map nz ks1 = map nz ks2 -> length ks1 = length ks2 ->
+    (inter = true \/ ks1 = [] -> nm1 = nm2) ->
+    nz (T None nm1 a ks1) = nz (T None nm2 a ks2).
+  Proof.
+    unfold nz. intros Hk Hlen Hn. destruct inter.
+    - cbn [sort_tree]. rewrite (Hn (or_introl eq_refl)). f_equal. exact Hk.
+    - cbn [sort_tree].
+      destruct ks1 as [|k1 ks1]; destruct ks2 as [|k2 ks2]; try discriminate.
+      + cbn [map blank_internal]. rewrite (Hn (or_intror eq_refl)). reflexivity.
+      + cbn [map blank_internal]. f_equal.
+        rewrite <- !map_map with (f := sort_tree) (g := blank_internal) in Hk.
+        cbn [map] in Hk. exact Hk.
+  Qed.
+
+  Lemma rb_nz :
+    forall isroot c t v c', rb inter len keys isroot c t v c' -> good2 inter len keys pf isroot t ->
+                            nz (nw_view o isroot t) = nz v.
+  Proof.
+    apply (rb_mut inter len keys
+             (fun isroot c t v c' _ => good2 inter len keys pf isroot t -> nz (nw_view o isroot t) = nz v)
+             (fun c ks ks' c' _ => Forall (good2 inter len keys pf false) ks ->
+                                   map nz (map (nw_view o false) ks) = map nz ks' /\ length ks = length ks')).
+    - intros isroot c g n a ks ks' c1 Hf IH Hg.
+      inversion Hg as [? ? ? ? ? Hnode Hdup Hna Hkids]; subst.
+      destruct (IH Hkids) as [Hmap Hlen].
+      rewrite nw_view_unfold, (view_attrs_good isroot g n a ks Hnode).
+      apply nz_node.
+      + exact Hmap.
+      + rewrite map_length. exact Hlen.
+      + unfold shown_name, out_name. intros [Ei|Ek].
+        * rewrite Ei. reflexivity.
+        * destruct ks; [|discriminate]. cbn [nilb]. rewrite !orb_true_r. reflexivity.
+    - intros c _. split; reflexivity.
+    - intros c k k' c' r r' c'' Hk IHk Hr IHr Hg.
+      inversion Hg as [|? ? Hg1 Hg2]; subst. destruct (IHr Hg2) as [A B].
+      cbn [map length]. rewrite (IHk Hg1), A, B. split; reflexivity.
+  Qed.
+End Glue.
+
+(* from the boolean alphabet of the spec to the guards used in the proofs *)
+Lemma good2_of_alphabet inter len keys pf t : forall isroot,
+  all_nodes (node_in_alphabet (oF inter len keys pf)) t = true ->
+  (inter = false -> all_nodes (fun x => negb (auto_name (tname x))) t = true) ->
+  sib_distinct t = true ->
+  (nilb len = false ->
+     (isroot = false -> len_ok (oF inter len keys pf) t = true)
+     /\ forallb (all_nodes (len_ok (oF inter len keys pf))) (tkids t) = true) ->
+  good2 inter len keys pf isroot t.
+Proof.
+  induction t as [g n a ks IH] using tree_ind'. intros isroot Hn Hauto Hsd Hlen.
+  apply all_nodes_inv in Hn as [Hn1 Hn2]. apply sib_distinct_inv in Hsd as [Hd1 Hd2].
+  assert (Hauto_k : forall k, In k ks -> inter = false -> all_nodes (fun x => negb (auto_name (tname x))) k = true).
+  { intros k Hk Ei. specialize (Hauto Ei). apply all_nodes_inv in Hauto as [_ Ha].
+    eapply Forall_forall in Ha; eauto. }
+  constructor.
+  - split; [exact Hn1|]. unfold skip_len. intros E. apply orb_false_iff in E as [E1 E2].
+    apply (proj1 (Hlen E1) E2).
+  - exact Hd1.
+  - apply Forall_forall. intros k Hk Ei. pose proof (Hauto_k k Hk Ei) as Ha.
+    destruct k as [g' n' a' ks']. apply all_nodes_inv in Ha as [Ha _]. cbn [tname] in *.
+    apply negb_true_iff. exact Ha.
+  - apply Forall_forall. intros k Hk.
+    eapply Forall_forall in IH; eauto. apply IH.
+    + eapply Forall_forall in Hn2; eauto.
+    + apply Hauto_k. exact Hk.
+    + eapply Forall_forall in Hd2; eauto.
+    + intros E. destruct (Hlen E) as [_ Hall]. cbn [tkids] in Hall.
+      eapply forallb_forall in Hall; eauto. destruct k as [g' n' a' ks'].
+      cbn [all_nodes] in Hall. apply andb_true_iff in Hall as [A B]. split; [intros _; exact A|exact B].
+Qed.
+
+Lemma alphabet_gen inter len keys pf isroot t :
+  newick_alphabet (oF inter len keys pf) isroot t = true ->
+  keys_good len keys /\ good2 inter len keys pf isroot t.
+Proof.
+  unfold newick_alphabet. cbn [oF o_inter o_len o_keys o_seps_default]. intros H.
+  apply andb_true_iff in H as [H Hseps]. apply andb_true_iff in H as [H Hlen].
+  apply andb_true_iff in H as [H Hknd]. apply andb_true_iff in H as [H Hkok].
+  apply andb_true_iff in H as [H Hsd]. apply andb_true_iff in H as [Hnodes Hauto].
+  assert (Hlen' : nilb len = false ->
+                  key_ok len = true /\ existsb (str_eqb len) keys = false
+                  /\ (isroot = false -> len_ok (oF inter len keys pf) t = true)
+                  /\ forallb (all_nodes (len_ok (oF inter len keys pf))) (tkids t) = true).
+  { intros E. rewrite E in Hlen. cbn [orb] in Hlen.
+    apply andb_true_iff in Hlen as [Hlen Hall]. apply andb_true_iff in Hlen as [Hlen Hroot].
+    apply andb_true_iff in Hlen as [Hlk Hnotin].
+    split; [exact Hlk|]. split; [apply negb_true_iff; exact Hnotin|]. split; [|exact Hall].
+    intros ->. cbn [orb] in Hroot. exact Hroot. }
+  split.
+  - split; [apply Forall_forall; intros k Hk; eapply forallb_forall in Hkok; eauto|].
+    split; [exact Hknd|]. intros E. destruct (Hlen' E) as (A & B & _). split; assumption.
+  - apply good2_of_alphabet; [exact Hnodes| |exact Hsd|].
+    + intros ->. cbn [orb] in Hauto. exact Hauto.
+    + intros E. destruct (Hlen' E) as (_ & _ & C & D). split; assumption.
+Qed.
+
+Theorem newick_roundtrip_gen inter len keys pf isroot t :
+  newick_alphabet (oF inter len keys pf) isroot t = true ->
+  exists s back,
+    nw_write (cfgF inter len keys pf) isroot t = Ret s
+    /\ nw_parse (laF inter len keys pf) pf s = Ret back
+    /\ prop_newick_back (oF inter len keys pf) isroot t back = true.
+Proof.
+  intros H. destruct (alphabet_gen inter len keys pf isroot t H) as [Hk Hg].
+  destruct (nw_parse_full2 inter len keys pf Hk isroot t Hg) as (v & c' & R & P).
+  exists (text inter len keys pf isroot t), v.
+  split; [apply nw_write_full|]. 2: split; [exact P|].
+  - clear - Hg. revert isroot Hg. induction t as [g n a ks IH] using tree_ind'. intros isroot Hg.
+    inversion Hg as [? ? ? ? ? Hnode Hdup Hna Hkids]; subst. constructor; [exact Hnode|exact Hdup|].
+    apply Forall_forall. intros k Hk. eapply Forall_forall in IH; eauto. apply IH.
+    eapply Forall_forall in Hkids; eauto.
+  - unfold prop_newick_back. cbn [oF o_inter]. fold (oF inter len keys pf).
+    pose proof (rb_nz inter len keys pf isroot 0%nat t v c' R Hg) as E. unfold nz in E.
+    destruct inter; rewrite E; apply tree_eqb_refl.
+Qed.
+
+Theorem newick_export_gen inter len keys pf isroot t :
+  newick_alphabet (oF inter len keys pf) isroot t = true ->
+  exists s, nw_write (cfgF inter len keys pf) isroot t = Ret s
+            /\ prop_newick_export (oF inter len keys pf) isroot t s = true.
+Proof.
+  intros H. destruct (alphabet_gen inter len keys pf isroot t H) as [Hk Hg].
+  exists (text inter len keys pf isroot t). split.
+  - apply nw_write_full.
+    clear - Hg. revert isroot Hg. induction t as [g n a ks IH] using tree_ind'. intros isroot Hg.
+    inversion Hg as [? ? ? ? ? Hnode Hdup Hna Hkids]; subst. constructor; [exact Hnode|exact Hdup|].
+    apply Forall_forall. intros k Hk. eapply Forall_forall in IH; eauto. apply IH.
+    eapply Forall_forall in Hkids; eauto.
+  - unfold prop_newick_export. change (la_of (oF inter len keys pf)) with (laF inter len keys pf).
+    cbn [oF o_prefix]. fold (oF inter len keys pf).
+    rewrite (newick_read_full inter len keys pf Hk isroot t Hg).
+    rewrite (sview_is_nw_view inter len keys pf t isroot Hg). apply tree_eqb_refl.
 Qed.
